@@ -41,11 +41,11 @@ def jit_rows():
             "register numbers of a verified program are <= 10", cites=("C06/R06.b",)),
         Row("tail-call", r"^jit::JitCompiler::jit_compile$", r"^panic!unimplemented@u8=141$", "D3",
             "the verifier refuses TAIL_CALL", cites=("C06/R06.a",)),
-        Row("endian", r"^jit::JitCompiler::jit_compile$", r"^panic!unreachable@u8=(212|220);i32!in\[16,32,64\]$", "D3",
+        Row("endian", r"^jit::JitCompiler::jit_compile$", r"^panic!unreachable@u8=(212|220)(,(212|220))?;i32!in\[16,32,64\]$", "D3",
             "LE/BE immediates of a verified program are 16/32/64", cites=("C06/R06.b",)),
         Row("fixup-index", r"^jit::JitCompiler::resolve_jumps$", r"^index:Index<I>>::index\(&\*arg1<&mut jit::JitCompiler>\.pc_locs,", "D3",
             "recorded jump targets are either special anchors or instruction indexes the verifier validated (< n <= len(pc_locs)-1)",
-            cites=("C06/R06.b",)),
+            cites=("C06/R06.b", "R12.j")),
         Row("fixup-arith", r"^jit::JitCompiler::resolve_jumps$", r"^Overflow\((Add|Sub)\)\(", "A",
             "code offsets are below 2^31 (code size bound as above)"),
         Row("page-round", r"^jit::JitMemory::new$", r"^precond:jit::round_up_to_page<-", "A", "code size is far below usize::MAX - 4096"),
@@ -225,6 +225,30 @@ def run(rep, tier):
                     probs.append("panic path under %s" % [T.show(c) for c in st.conds])
         rep.ob(ri, "writer=%s" % p, nw >= 1 and not probs, "bounds predicate of the raw write in %s" % p,
                expected="offset + n <= contents.len() on the writing path, its exact complement on the panic path", found=probs or "%d writing paths" % nw)
+
+    # R12.j jump targets recorded for fix-up
+    rj = rep.rule("R12.j", "x86 JIT: every jump target recorded for fix-up is a constant anchor, pc+1, or the interpreter's own next-pc term for that opcode (the ones the verifier validates)", floor=30)
+    import imodel
+    import isa
+    import jitmodel
+    im, jm = imodel.InterpModel(cx), jitmodel.JitModel(cx)
+    if im.ok and jm.ok:
+        nxt = T.op("add", 64, ("v", "pc", 64), T.K(64, 1))
+        for v, d in sorted(isa.TABLE.items()):
+            variants = [(1, 2)] if d["kind"] != "call" else [(1, 0), (1, 1)]
+            for dd, ss in variants:
+                tps = jm.templates(v, dd, ss)
+                targets = {it[2][1] for t in tps for it in t["items"] if it[2] is not None and it[2][0] == "reloc"}
+                if not targets:
+                    continue
+                allowed = {nxt}
+                for pth in im.per_opcode(v):
+                    if pth["pc"] is not None:
+                        allowed.add(jitmodel.concretise(pth["pc"], dd, ss) if hasattr(jitmodel, "concretise") else pth["pc"])
+                        allowed.add(pth["pc"])
+                bad = sorted(T.show(t) for t in targets if not T.is_k(t) and t not in allowed)
+                rep.ob(rj, "opc=%#04x%s" % (v, "/src1" if (d["kind"] == "call" and ss == 1) else ""), not bad,
+                       "jump targets recorded by the JIT for opcode %#04x" % v, expected=sorted(T.show(a) for a in allowed), found=bad or sorted(T.show(t) for t in targets))
 
     # R12.e repeatability
     re_ = rep.rule("R12.e", "no clock / RNG / environment access reachable from the compilers", floor=1)
